@@ -440,7 +440,9 @@ func TestC05(t *testing.T) {
 		return c
 	}, c05Prop)
 	ev.Check(t, r, "limit_above_join", ev.N(220, 4400), func(t *rapid.T) c05QueryCase {
-		tables := gen.JoinTablesWith(t, 2, gen.JoinTablesOpts{List: true, MinRows: 3})
+		// two tables, or three (then a third of the queries join the first with a subquery that outer-joins the other two: a
+		// retracting RIGHT input under the LIMIT)
+		tables := gen.JoinTablesWith(t, rapid.SampledFrom([]int{2, 3, 3}).Draw(t, "ntables"), gen.JoinTablesOpts{List: true, MinRows: 3})
 		for i := range tables {
 			c05Sanitise(&tables[i])
 		}
